@@ -144,6 +144,17 @@ func (h *hist) run(pre func(h *hist), post func(h *hist)) {
 	vx.Cover("history-complete")
 }
 
+// propOverride attributes the shared structural predicates (checkHeads, checkValues) to the property whose
+// harness calls them (e.g. C13 uses them on the state after concurrent operations).
+var propOverride string
+
+func pp(p string) string {
+	if propOverride != "" {
+		return propOverride
+	}
+	return p
+}
+
 func entriesOf(l *ipfslog.IPFSLog) []iface.IPFSLogEntry { return l.GetEntries().Slice() }
 
 // ---- C02: heads are exactly the unreferenced entries ----
@@ -152,15 +163,15 @@ func checkHeads(l iface.IPFSLog, what string) {
 	es := l.GetEntries().Slice()
 	want := refHeads(es)
 	hs := l.Heads().Slice()
-	vx.Assert("C02", sameSet(hashSet(hs), want), "Heads() are exactly the entries no other entry of the log names as predecessor ("+what+")")
-	vx.Assert("C02", len(hs) == len(hashSet(hs)), "Heads() contains no duplicate ("+what+")")
-	vx.Assert("C02", sameSet(hashSet(l.RawHeads().Slice()), want), "RawHeads() are exactly the unreferenced entries ("+what+")")
-	vx.Assert("C02", sameSet(cidSet(l.ToSnapshot().Heads), want), "ToSnapshot().Heads are exactly the unreferenced entries ("+what+")")
-	vx.Assert("C02", (len(hs) == 0) == (len(es) == 0), "heads are non-empty iff the log is non-empty ("+what+")")
-	vx.Assert("C02", subset(hashSet(hs), hashSet(es)), "every head is an entry of the log ("+what+")")
+	vx.Assert(pp("C02"), sameSet(hashSet(hs), want), "Heads() are exactly the entries no other entry of the log names as predecessor ("+what+")")
+	vx.Assert(pp("C02"), len(hs) == len(hashSet(hs)), "Heads() contains no duplicate ("+what+")")
+	vx.Assert(pp("C02"), sameSet(hashSet(l.RawHeads().Slice()), want), "RawHeads() are exactly the unreferenced entries ("+what+")")
+	vx.Assert(pp("C02"), sameSet(cidSet(l.ToSnapshot().Heads), want), "ToSnapshot().Heads are exactly the unreferenced entries ("+what+")")
+	vx.Assert(pp("C02"), (len(hs) == 0) == (len(es) == 0), "heads are non-empty iff the log is non-empty ("+what+")")
+	vx.Assert(pp("C02"), subset(hashSet(hs), hashSet(es)), "every head is an entry of the log ("+what+")")
 	if len(es) > 0 {
 		jl := l.ToJSONLog()
-		vx.Assert("C02", sameSet(cidSet(jl.Heads), want), "ToJSONLog().Heads are exactly the unreferenced entries ("+what+")")
+		vx.Assert(pp("C02"), sameSet(cidSet(jl.Heads), want), "ToJSONLog().Heads are exactly the unreferenced entries ("+what+")")
 	}
 }
 
@@ -184,8 +195,8 @@ func H_C02_hist() {
 func checkValues(h *hist, l *ipfslog.IPFSLog, what string) {
 	es := l.GetEntries().Slice()
 	v := l.Values().Slice()
-	vx.Assert("C03", len(v) == len(es), "Values() has one element per entry of the log ("+what+")")
-	vx.Assert("C03", sameSet(hashSet(v), hashSet(es)), "Values() contains exactly the entries of the log, each once ("+what+")")
+	vx.Assert(pp("C03"), len(v) == len(es), "Values() has one element per entry of the log ("+what+")")
+	vx.Assert(pp("C03"), sameSet(hashSet(v), hashSet(es)), "Values() contains exactly the entries of the log, each once ("+what+")")
 	pos := map[string]int{}
 	for i, e := range v {
 		pos[hstr(e)] = i
@@ -198,16 +209,16 @@ func checkValues(h *hist, l *ipfslog.IPFSLog, what string) {
 			}
 		}
 	}
-	vx.Assert("C03", ok, "every entry comes after all of its predecessors that are in the log ("+what+")")
+	vx.Assert(pp("C03"), ok, "every entry comes after all of its predecessors that are in the log ("+what+")")
 	sv := l.ToSnapshot().Values
-	vx.Assert("C03", sameSeq(sv, v), "ToSnapshot().Values equals Values() ("+what+")")
+	vx.Assert(pp("C03"), sameSeq(sv, v), "ToSnapshot().Values equals Values() ("+what+")")
 	if !h.strictTotal() {
 		return
 	}
 	cmp := h.sortFn()
 	for i := 0; i+1 < len(v); i++ {
 		r, err := cmp(v[i], v[i+1])
-		vx.Assert("C03", err == nil && r < 0, "Values() is sorted by the configured ordering ("+what+")")
+		vx.Assert(pp("C03"), err == nil && r < 0, "Values() is sorted by the configured ordering ("+what+")")
 	}
 	// arrival-order independence: the same entries inserted in reverse order linearise identically
 	rev := entry.NewOrderedMap()
@@ -215,7 +226,7 @@ func checkValues(h *hist, l *ipfslog.IPFSLog, what string) {
 		rev.Set(hstr(es[i]), es[i])
 	}
 	l2 := newLogOpt(h.api, h.ids[0], &ipfslog.LogOptions{SortFn: cmp, Entries: rev})
-	vx.Assert("C03", sameSeq(l2.Values().Slice(), v), "Values() depends only on the set of entries, not on their arrival order ("+what+")")
+	vx.Assert(pp("C03"), sameSeq(l2.Values().Slice(), v), "Values() depends only on the set of entries, not on their arrival order ("+what+")")
 }
 
 func H_C03_hist() {
